@@ -46,6 +46,10 @@ func lockOp(in ssa.Instruction) (name string, acquire, release bool) {
 	return "", false, false
 }
 
+// sharedSuffix marks a lock that is held through RLock: readers may overlap,
+// so a write under it is not protected.
+const sharedSuffix = "|shared"
+
 var locksCache = map[*ssa.Function]map[ssa.Instruction][]string{}
 
 // LocksHeld computes, for every instruction of fn, the locks that are held on
@@ -67,8 +71,15 @@ func LocksHeld(fn *ssa.Function) map[ssa.Instruction][]string {
 			if name, acq, rel := lockOp(ins); name != "" {
 				if acq {
 					s[name] = true
+					// a read lock of a RWMutex is held in shared mode only
+					if c, ok := ins.(*ssa.Call); ok && CalleeName(c) == "sync.RWMutex.RLock" {
+						s[name+sharedSuffix] = true
+					} else {
+						delete(s, name+sharedSuffix)
+					}
 				} else if rel {
 					delete(s, name)
+					delete(s, name+sharedSuffix)
 				}
 			}
 		}
